@@ -3,8 +3,8 @@
 CFG = {
     'sub': 'c19',
     'gens': [('gen_key_layout.py', 'KeyLayout.v')],
-    'coq_files': ['Bytes.v', 'U64.v', 'KeyLayout.v', 'KV.v', 'Model_C19.v', 'Proofs_C19.v', 'Props_C19.v', 'Run_C19.v'],
-    'props': 'Props_C19.v', 'run': 'Run_C19.v',
+    'coq_files': ['Bytes.v', 'U64.v', 'KeyLayout.v', 'KV.v', 'Model_C19.v', 'Proofs_C19.v', 'Props_C19.v', 'Run_C19.v', 'Flocq_C19.v', 'Props_C19_Flocq.v'],
+    'props': 'Props_C19.v', 'props_extra': ['Props_C19_Flocq.v'], 'run': 'Run_C19.v',
     'widen_runs': 4,
     'rule': 'boundary pools (min/max int64, +-0.0, subnormals, infinities, 2^k and neighbours, strings that are prefixes of each other, '
             'non-UTF8 bytes) plus seeded random values per type; every value paired with its neighbour in sorted order and a random other; '
@@ -12,7 +12,8 @@ CFG = {
             'distinct = distinct (kind, input) pairs; every case exercises at least one encoder branch so all are non-trivial',
     'assumptions': ['float identity is IEEE equality: -0.0 and +0.0 are one value (DESIGN 4.19)',
                     'NaN is outside the property; bit patterns are compared through math.Float64bits',
-                    'bbolt cursor order is the byte order (validated by the scan cases, not proved)'],
+                    'bbolt cursor order is the byte order (validated by the scan cases, not proved)',
+                    'that sign-magnitude order on bit patterns is the IEEE-754 order is PROVED against Flocq (Props_C19_Flocq.v: Bcompare on b64_of_bits); those theorems depend on the standard-library axioms Flocq uses (classic, sig_forall_dec, sig_not_dec, functional_extensionality_dep)'],
     'trusted_extra': ['translator gen/gen_key_layout.py (regex extraction of key-layout constants and xor masks from the Go sources)'],
 }
 
